@@ -38,3 +38,4 @@ package postfinance
 //@        && built(dyn(targ("Add", 0, old(tlen()) + 3), "*transaction.Transaction").Postings[0], dyn(targ("Add", 0, old(tlen()) + 3), "*transaction.Transaction").Postings[1],
 //@             posting.Builder{Debit: p.account, Credit: dyn(targ("Add", 0, old(tlen()) + 3), "*transaction.Transaction").Postings[1].Account == p.account ? dyn(targ("Add", 0, old(tlen()) + 3), "*transaction.Transaction").Postings[0].Account : dyn(targ("Add", 0, old(tlen()) + 3), "*transaction.Transaction").Postings[1].Account,
 //@                 Commodity: old(p.currency), Quantity: tres("parseAmount", old(tlen()) + 2)})
+//@   ensures [C13] @text: result.0 ==> quotable(dyn(targ("Add", 0, old(tlen()) + 3), "*transaction.Transaction").Description)
